@@ -22,6 +22,8 @@ where
     iter: I,
     communication: Vec<ThreadCommunication<I::Item, T>>,
     handles: Vec<std::thread::JoinHandle<()>>,
+    /// Which threads have been told that there is no more work (sent `None`).
+    finished: Vec<bool>,
 }
 
 /// Send `U`, receive `V`.
@@ -60,10 +62,26 @@ where
         }
 
         // Get answer from the thread number `self.now`.
-        let result = self.communication[self.now].receive.recv().unwrap_or_default();
+        let result = match self.communication[self.now].receive.recv() {
+            Ok(result) => result,
+            Err(_) => {
+                // The thread is gone. That is the end of the iteration only when the thread has
+                // been told to finish. Otherwise it died (its function panicked) and silently
+                // ending here would skip all remaining items.
+                assert!(
+                    self.finished[self.now],
+                    "A worker thread of parallel_map died before returning its result."
+                );
+                None
+            }
+        };
 
         // Some(task) means more work for the thread, None means the thread should finish.
-        let _ = self.communication[self.now].send.send(self.iter.next());
+        let next_task = self.iter.next();
+        if next_task.is_none() {
+            self.finished[self.now] = true;
+        }
+        let _ = self.communication[self.now].send.send(next_task);
 
         // Move to the next thread (which should be finishing soonest if all tasks take
         // the same time).
@@ -139,7 +157,8 @@ where
         let _ = communication[t].send.send(next_task);
     }
 
-    ParallelMap { now: 0, iter, communication, handles }
+    let finished = vec![false; communication.len()];
+    ParallelMap { now: 0, iter, communication, handles, finished }
 }
 
 #[cfg(test)]
